@@ -47,7 +47,7 @@ func nums(l []int) string {
 }
 
 func runC01(res *Result, d *Driver, tier string, seed uint64) {
-	res.Rule = "part A: real libseccomp.Builder.Build() on generated policies (disjoint allow/trace subsets of the amd64 table: sizes 0..|table|, biased to 250-300 names per group so that long jumps occur, all single-name and everything-but-one policies in thorough; every default action 0..6 and values with high bits) -> the []SockFilter handed to the kernel is validated by the verified validator (Model.SeccompValidate.validate, theorem C01_validator_sound) against the policy oracle; " +
+	res.Rule = "part A: real libseccomp.Builder.Build() on generated policies (disjoint allow/trace subsets of the amd64 table: sizes 0..|table|, biased to 250-300 names per group so that long jumps occur, all single-name and everything-but-one policies in thorough; every default action 0..6 and values with high bits; for a third of the small policies also the policies that list the same names with the allow/trace boundary elsewhere, in another order, with another default, and the same policy again, in the same process) -> the []SockFilter handed to the kernel is validated by the verified validator (Model.SeccompValidate.validate, theorem C01_validator_sound) against the policy oracle; " +
 		"part B: the cBPF machine of the model vs golang.org/x/net/bpf's VM on the real programs and random seccomp_data; part C: cleanTrace on random overlapping lists (trace-listed names traced, the rest allowed, no duplicates) and GetConf for every program type (allow/trace disjoint, execve stays traced); part D: filters built earlier are re-validated after later Builds (no shared storage). non-trivial = non-empty policy; distinct = distinct (allow,trace,default)."
 	rng := NewRng(seed, "C01", 1)
 	info, err := arch.GetInfo("")
@@ -140,6 +140,24 @@ func runC01(res *Result, d *Driver, tier string, seed uint64) {
 				res.Mismatch(Mismatch{Kind: "oracle", What: "a filter built earlier no longer implements its policy once a later policy has been built (C01: the program handed to the kernel)", Input: fmt.Sprintf("history: Build(%s) then Build(policy %d); the first filter compared with its validated copy", prevKey[:min(len(prevKey), 200)], i),
 					Impl: fmt.Sprintf("first filter now: %s", progString(prevFilter)[:min(len(progString(prevFilter)), 400)]), Model: fmt.Sprintf("validated: %s", progString(prevSnap)[:min(len(progString(prevSnap)), 400)]), Oracle: "violates"})
 			}
+		}
+		// policies related to the one just built, in the same process ("for every policy": also for policies that differ
+		// from an earlier one only in where a name is listed, in the order of the names, or in the default action)
+		if rng.Chance(35) && na+nt > 0 && na+nt < 40 {
+			all := perm[:na+nt]
+			for _, cut := range []int{0, (na + nt) / 2, na + nt, maxInt(na-1, 0), minInt(na+1, na+nt)} {
+				if cut == na {
+					continue
+				}
+				validateOne(pol{allow: all[:cut], trace: all[cut:], def: p.def}, "policy-resplit")
+			}
+			rev := append([]string{}, perm[:na]...)
+			for a, b := 0, len(rev)-1; a < b; a, b = a+1, b-1 {
+				rev[a], rev[b] = rev[b], rev[a]
+			}
+			validateOne(pol{allow: rev, trace: perm[na : na+nt], def: p.def}, "policy-reordered")
+			validateOne(pol{allow: perm[:na], trace: perm[na : na+nt], def: defaults[rng.Intn(len(defaults))]}, "policy-other-default")
+			validateOne(p, "policy-again")
 		}
 		if f != nil {
 			lastFilter = f
@@ -299,4 +317,17 @@ func runC01(res *Result, d *Driver, tier string, seed uint64) {
 			}
 		}
 	}
+}
+
+func maxInt(a, b int) int {
+	if a > b {
+		return a
+	}
+	return b
+}
+func minInt(a, b int) int {
+	if a < b {
+		return a
+	}
+	return b
 }
